@@ -183,3 +183,48 @@ PROPS["C10"] = {
     "explanation": "dispatch: one-send-attempt-per-subscriber, only-own-subscribers-touched, stamped-before-sending, never-suspends; _subscribe bracket. "
                    "stream_events, wait_event, filter_events are covered by the bounded harness only (labelled bounded).",
 }
+
+
+TASK_TRUSTED = LIFE_TRUSTED + [
+    "A-TG3/A-TG4 anyio TaskGroup.start_soon / start (spawn semantics; RuntimeError and nothing spawned when the group is not active)",
+    "A-CS CancelScope (cancel synchronous/idempotent, scope exit swallows exactly its own cancellation, scopes independent)",
+    "A-EV anyio.Event (set synchronous, wait returns only when set)", "A-DC dataclass default_factory gives every handle its own scope and event",
+    "A-WITH a context entered by `async with` is left only by the entering task", "A-TF1 only the task wrapper removes its handle",
+    "AX-ITER-PURE inspecting signature(func).parameters has no side effects",
+]
+
+PROPS["C08"] = {
+    "functions": ["_context.Context.start_service_task", "_context.Context.start_service_task.finalize_service_task",
+                  "_concurrent.run_background_task", "_concurrent.TaskHandle.cancel", "_concurrent.TaskHandle.wait_finished",
+                  "_context.Context._run_teardown_callbacks"],
+    "trusted": TASK_TRUSTED, "assumptions": CTX_ASSUME + ["the finaliser's own awaits are not cancelled (excluded by the statement)"],
+    "undecided": ["liveness: teardown_action=None requires the task to finish by itself (the user's obligation)"],
+    "level_text": "Proof: start_service_task validates teardown_action before anything starts, spawns run_background_task(func, self, handle) in "
+                  "its own task group and only after the task started registers the finaliser closure on this context (so, by C01's LIFO loop, it "
+                  "runs before every callback registered earlier); the finaliser closure calls the action exactly once iff callable (awaiting its "
+                  "awaitable), cancels iff 'cancel' or the action raised, and on every path returns only after wait_finished(); "
+                  "run_background_task sets the finished event on every outcome and only after its own child context (explicit parent = owner) "
+                  "has been closed; an escaping Exception is re-raised into the task group.",
+    "level_note": "Trusted: A-TG1..4, A-CS, A-EV, A-DC, A-WITH, A-XS, A0. Composition with C01 (LIFO) is by contract.",
+    "design_ref": "DESIGN.md section 5 (C08)",
+    "explanation": "finalize_service_task: action-called-exactly-once-iff-callable, cancelled-as-the-action-dictates, waits-for-the-task-last; "
+                   "run_background_task: finished-implies-own-context-closed; start_service_task: one-task-started-then-one-finaliser-registered",
+}
+PROPS["C09"] = {
+    "functions": ["_concurrent.TaskFactory.start_task", "_concurrent.TaskFactory.start_task_soon", "_concurrent.TaskFactory._run_background_task",
+                  "_concurrent.TaskFactory.all_task_handles", "_concurrent.run_background_task", "_concurrent.TaskHandle.cancel",
+                  "_concurrent.TaskHandle.wait_finished", "_context.Context.start_service_task.finalize_service_task"],
+    "trusted": TASK_TRUSTED, "assumptions": CTX_ASSUME + ["TaskFactory._run and Context.start_background_task_factory (task-group body + service task "
+                  "with teardown_action = finished_event.set) are covered by the bounded harness; the finaliser's callable case (C08) gives "
+                  "`teardown waits, does not cancel`"],
+    "undecided": [],
+    "level_text": "Proof: start_task_soon / start_task create a fresh handle (own cancel scope and event), spawn the task wrapper with (func, handle, "
+                  "factory.exception_handler) in the factory's group; the handle is in the set iff the spawn succeeded (fixed F10) and the wrapper "
+                  "removes exactly its own handle on every outcome after the task ended; the wrapper passes the factory's own context as explicit "
+                  "parent (never the spawner's); run_background_task offers an escaping Exception to the handler exactly once, swallows iff truthy, "
+                  "lets other BaseExceptions bypass it, sets the finished event on every outcome; cancel() touches only the handle's own scope; "
+                  "all_task_handles() returns a fresh copy.",
+    "level_note": "Trusted: A-TG1..4, A-CS, A-EV, A-DC, A-WITH, A-TF1. fixed: F10.",
+    "design_ref": "DESIGN.md section 5 (C09)",
+    "explanation": "handle-registered, spawn-failed-handle-set-unchanged, removes-the-handle-on-every-outcome, task-context-parent-is-the-factory-context, handler clauses",
+}
